@@ -162,7 +162,7 @@ def redeclared_traits(ctx, rule):
 def run(ctx):
     repo, cg = ctx.repo, ctx.cg
     ctx.rule('R19.9', 'a section class re-declares an inherited option only with a non-None default (None is "delete" for the layering)', floor=2)
-    ctx.rule('R19.8', 'no ValueError other than "unknown program name" can be raised while the configuration is read: the parser swallows ValueError and would silently run unconfigured', floor=2)
+    ctx.rule('R19.8', 'no ValueError other than "unknown program name" can be raised while the configuration is read: the parser swallows ValueError and would silently run unconfigured', floor=1)
     ctx.rule('R19.7', 'name binding: every global name a function refers to is bound at module level or builtin, and every local is assigned on every path before it is read', floor=2)
     ctx.rule('R19.6', 'every exactly resolved call binds against its callee\'s signature (no missing/unknown/surplus argument on any arm)', floor=1)
     ctx.rule('R19.1', 'documented section membership = class hierarchy (section S listed for entry point E <=> S in MRO(E))', floor=7)
@@ -328,13 +328,60 @@ def run(ctx):
     ctx.inst('R19.3', CFGM + ':build_config', 'disk section key = %s' % (repo.norm(disk_sub[0].slice) if disk_sub else '?'), ok,
              'a class reads the section named after itself' if ok else 'section lookup is not by class name', ml)
     # the search path: the local that holds jupyter_config_path() and is handed to _load_config_files
-    path_names = {nm for nm, ds in bdefs.items() for v, k, st_ in ds if isinstance(v, ast.Call) and last_attr(v) == 'jupyter_config_path'}
-    if not path_names:
+    lcf = [c for c in calls_in(bc) if last_attr(c) == '_load_config_files']
+    if len(lcf) != 1:
+        raise AnalysisError('build_config: _load_config_files call not found')
+    parg = next((k.value for k in lcf[0].keywords if k.arg == 'path'), lcf[0].args[1] if len(lcf[0].args) > 1 else None)
+    if parg is None:
+        raise AnalysisError('build_config: no search path is handed to _load_config_files')
+
+    def _elt(e):
+        if isinstance(e, ast.Call) and dotted(e.func) in ('os.getcwd', 'getcwd', 'os.path.abspath') and (dotted(e.func) != 'os.path.abspath' or (e.args and const_val(e.args[0]) in ('.', ''))):
+            return 'CWD'
+        if isinstance(e, ast.Attribute) and dotted(e) == 'os.curdir' or const_val(e) == '.':
+            return 'CWD'
+        return '?'
+
+    def _sym(e, depth=0):
+        """the search path as a sequence over {CWD, JUP (the jupyter config directories), ?}"""
+        if isinstance(e, ast.Call) and last_attr(e) == 'jupyter_config_path':
+            return ['JUP']
+        if isinstance(e, ast.Call) and dotted(e.func) == 'list' and len(e.args) == 1:
+            return _sym(e.args[0], depth)
+        if isinstance(e, (ast.List, ast.Tuple)):
+            out = []
+            for x in e.elts:
+                out += _sym(x.value, depth) if isinstance(x, ast.Starred) else [_elt(x)]
+            return out
+        if isinstance(e, ast.BinOp) and isinstance(e.op, ast.Add):
+            return _sym(e.left, depth) + _sym(e.right, depth)
+        if isinstance(e, ast.Name) and depth < 3:
+            ds = [(v, st_) for v, k, st_ in bdefs.get(e.id, []) if k == 'assign']
+            if len(ds) != 1:
+                return ['?']
+            seq = _sym(ds[0][0], depth + 1)
+            for c_ in sorted([c_ for c_ in calls_in(bc, nested=False) if isinstance(c_.func, ast.Attribute) and dotted(c_.func.value) == e.id and
+                              c_.func.attr in ('insert', 'append', 'extend', 'reverse', 'sort', 'remove', 'pop')], key=lambda c_: (c_.lineno, c_.col_offset)):
+                if c_.func.attr == 'insert' and len(c_.args) == 2 and const_val(c_.args[0]) == 0:
+                    seq = [_elt(c_.args[1])] + seq
+                elif c_.func.attr == 'append' and c_.args:
+                    seq = seq + [_elt(c_.args[0])]
+                elif c_.func.attr == 'extend' and c_.args:
+                    seq = seq + _sym(c_.args[0], depth + 1)
+                else:
+                    seq = ['?']
+            return seq
+        return ['?']
+    seq = _sym(parg)
+    if 'JUP' not in seq:
         raise AnalysisError('build_config: jupyter_config_path() is no longer the search path')
-    ins = [c for c in calls_in(bc, nested=False) if isinstance(c.func, ast.Attribute) and c.func.attr in ('insert', 'append') and dotted(c.func.value) in path_names]
-    ok = len(ins) == 1 and ins[0].func.attr == 'insert' and const_val(ins[0].args[0]) == 0 and any(dotted(x.func) == 'os.getcwd' for x in calls_in(ins[0]))
-    ctx.inst('R19.3', CFGM + ':build_config', repo.norm(ins[0]) if ins else '<cwd not added>', ok,
-             'the working directory is the highest-priority location' if ok else 'the working directory does not take precedence', ins[0] if ins else bc)
+    if '?' in seq:
+        raise AnalysisError('build_config: the search path %s could not be resolved' % seq)
+    ok = seq[0] == 'CWD'
+    ctx.inst('R19.3', CFGM + ':build_config', 'search path = %s' % seq, ok,
+             'the working directory is the highest-priority location' if ok else
+             'the working directory does not take precedence: it is not the first entry of the search path (the files are merged from the last entry to the first, so the '
+             'first entry wins)', lcf[0])
     lf = repo.func(CFGM + ':_load_config_files')
     floops = [n for n in walk_no_nested(lf) if isinstance(n, ast.For)]
     ok = len(floops) == 1 and isinstance(floops[0].iter, ast.Subscript) and isinstance(floops[0].iter.slice, ast.Slice) and \
